@@ -308,7 +308,7 @@ func c20Formatters(c *Ctx, pkg string) map[*ssa.Function]bool {
 // c20TokenResidual: the one reviewed residual that is not proved: the text of a lexer token sliced at a constant
 // offset under a test of the token's type. Recognised by structure, not by names: the slice is dominated by a
 // condition `typ == const` where typ is one result of a call of a repository function (the lexer; the conditions at
-// the single call site of a helper count), the sliced string is cut from the very input that call was given, and the
+// the single call site of a helper count), the sliced string is cut from the very input that call was given (or both are cut from the same text), and the
 // offset is at most one more than the longest string constant the lexer compares its input with (its state machine
 // only yields that type after matching the constant and one more character).
 func c20TokenResidual(sl *ssa.Slice) (bool, string) {
@@ -347,6 +347,11 @@ func c20TokenResidual(sl *ssa.Slice) (bool, string) {
 			for _, input := range call.Call.Args {
 				in := input
 				if derives(sl.X, func(v ssa.Value) bool { return v == in }) {
+					fromInput = true
+				}
+				// a parser that walks the text with a cursor hands the lexer text[pos:] and cuts the token out of the
+				// text itself (text[pos:pos+n]): token and input are views of one text, not one derived from the other
+				if !fromInput && c20textUnit(in.Type()) != c20unitNone && c20sameText(sl.X, in) {
 					fromInput = true
 				}
 			}
